@@ -5,5 +5,7 @@ wt=/tmp/rs-$name-$$
 git -C /repo worktree add -q "$wt" HEAD || exit 2
 trap 'git -C /repo worktree remove --force "$wt" 2>/dev/null' EXIT
 git -C "$wt" apply /verif/seeded/$name/patch.diff || exit 2
-cd /verif && VERIF_REPO="$wt" timeout 1800 ./vcheck "$pid" "$tier" 2>&1 | tail -6
-echo "exit=${PIPESTATUS[0]}"
+out=$(cd /verif && VERIF_REPO="$wt" timeout 1800 ./vcheck "$pid" "$tier" 2>&1); rc=$?
+echo "$out" | grep '^VIOLATION'
+echo "$out" | grep -v '^VIOLATION' | tail -4
+echo "exit=$rc"
